@@ -93,12 +93,13 @@ def rg_part(chk, tier, recs):
             for naming in ("implicit", "explicit", "mixed"):
                 for mode, fl in (("default", []), ("binary", ["--binary"]), ("text", ["--text"])):
                     for strat in ("--mmap", "--no-mmap", "--mmap-U"):
-                        for ctx in ([], ["-C1"], ["-c"], ["-l"]):
+                        for ctx in ([], ["-C1"], ["-c"], ["-l"], ["--files-without-match"], ["-c", "--include-zero"],
+                                    ["--count-matches", "--include-zero"]):
                             if ctx and mode == "text":
                                 continue
                             if strat == "--mmap-U" and (ctx or len(b) > 60000 or naming == "mixed"):
                                 continue
-                            if ctx in (["-c"], ["-l"]) and (naming == "mixed" or k % 3):
+                            if ctx and ctx != ["-C1"] and (naming == "mixed" or k % 3):
                                 continue
                             args = ["--no-config", "--color", "never", "-j1", "-n", "-I", "--no-heading", strat] + fl + ctx + ["-e", "m"]
                             if strat == "--mmap-U":
@@ -113,14 +114,15 @@ def rg_part(chk, tier, recs):
                             else:
                                 args += [sc.path(d)]
                             jobs.append({"args": args})
-                            meta.append((k, "implicit" if naming == "mixed" else naming, mode, strat + ("+mixed" if naming == "mixed" else "") + ("+" + ctx[0] if ctx else "")))
+                            meta.append((k, "implicit" if naming == "mixed" else naming, mode, strat + ("+mixed" if naming == "mixed" else "") + ("+" + "".join(ctx) if ctx else "")))
         outs = rgrun.run_many(jobs)
         chk.evaluations += len(jobs)
         runs = []
         for rid, ((k, naming, mode, strat), (rc, so, se)) in enumerate(zip(meta, outs), 1):
             b = inputs[k]
             body = b[:-1].split(b"\n") if b.endswith(b"\n") else b.split(b"\n")
-            summary = "count" if strat.endswith("+-c") else "list" if strat.endswith("+-l") else "none"
+            summary = ("count" if strat.endswith("+-c") else "list" if strat.endswith("+-l") else "fwm" if strat.endswith("+--files-without-match")
+                       else "count0" if strat.endswith("+-c--include-zero") else "countm0" if strat.endswith("+--count-matches--include-zero") else "none")
             if summary == "none":
                 toks = tokens(so, body)
             else:
@@ -128,14 +130,16 @@ def rg_part(chk, tier, recs):
                 for raw in so.split(b"\n"):
                     if raw == b"":
                         continue
-                    if summary == "count" and raw.isdigit():
+                    if summary in ("count", "count0", "countm0") and raw.isdigit():
                         toks.append({"k": "count", "i": int(raw)})
-                    elif summary == "list" and raw.endswith(b"/f"):
+                    elif summary in ("list", "fwm") and raw.endswith(b"/f"):
                         toks.append({"k": "listed", "i": 0})
                     else:
                         toks.append({"k": "other", "i": 0})
             runs.append({"id": rid, "lines": [{"m": b"m" in l, "nul": b"\x00" in l} for l in body], "naming": naming, "mode": mode,
-                         "out": toks, "nulout": b"\x00" in so, "rc": rc, "summary": summary})
+                         "out": toks, "nulout": b"\x00" in so, "rc": rc, "summary": summary,
+                         # the first NUL lies where every mode that reads a file to its end looks (reader: anywhere; map: leading 64 KiB)
+                         "noticed": 0 <= b.find(b"\x00") < (65000 if strat.startswith("--mmap") else len(b))})
         os.makedirs(os.path.join(vlib.WORK, "c14"), exist_ok=True)
         path = os.path.join(vlib.WORK, "c14", "runs_%d.ndjson" % os.getpid())
         with open(path, "w") as f:
